@@ -31,6 +31,7 @@ type c07Case struct {
 	RootsForm    string           `json:"roots_form"` // star | empty | nil : root list of EVERY constraint
 	Second       string           `json:"second"` // e2e only: none | accept-before | accept-after (another step that accepts the same certificate by wildcard)
 	Wrapper      string           `json:"wrapper"`
+	Params       bool             `json:"params,omitempty"` // e2e: verification with a (for the constraints irrelevant) parameter dictionary
 }
 
 func hasDup(l []string) bool {
@@ -449,6 +450,7 @@ func c07Gen(t *rapid.T) c07Case {
 		}
 	}
 	c.PKI.Certs = append(c.PKI.Certs, leaf)
+	c.Params = rapid.IntRange(0, 2).Draw(t, "e2eparams") == 0
 	if len(c.CallerInters) >= 2 && c.Flip != "bundle-first-known" {
 		c.Bundle = rapid.SampledFrom([]string{"", "forward", "reverse"}).Draw(t, "bundle")
 	}
@@ -633,6 +635,10 @@ func c07Run(c c07Case, r *hx.Rec) error {
 		Layout:       hx.WMetaFile{Name: "root.layout", Wrapper: c.Wrapper, Meta: hx.MMeta{Layout: &lay}, Sigs: []hx.WSig{{Key: "ed25519-1"}}},
 		VerifierKeys: []hx.WKey{{Key: "ed25519-1"}},
 		Links:        []hx.WMetaFile{{Name: hx.LinkFileName("build", certs[c.Leaf].Key.KeyID), Wrapper: "legacy", Meta: hx.MMeta{Link: &link}, Sigs: []hx.WSig{{Key: "pki:" + c.Leaf, WithCert: true, Chain: c.SigChain}}}}}
+	if c.Params {
+		w.Params = map[string]string{"PRODUCT": "out", "UNUSED": "{PRODUCT}"}
+		r.Label("e2e-with-parameters")
+	}
 	if c.Second == "accept-before" || c.Second == "accept-after" {
 		// another step for which the same certificate is an authorised functionary (wildcard constraint)
 		other := hx.MStep{Type: "step", Name: "other", ExpMat: [][]string{{"ALLOW", "*"}}, ExpProd: [][]string{{"ALLOW", "*"}}, PubKeys: []string{}, ExpCommand: []string{}, Threshold: 1,
